@@ -23,7 +23,7 @@ ASSUMPTIONS = [
 COMPONENTS = {"real": ["TradingEnv.step (delay deque)", "Transmitter", "PortfolioSpace.null_action/make_rebalancing_request", "Broker.rebalance", "Exchange"],
               "harness": ["delivery model", "plain-list delay queue model"], "stub": []}
 PROBE_FLOORS = {"second_episode_on_same_env": 169, "delay_ge_2": 241, "discrete_with_delay": 100, "quote_exactly_on_latency_bound": 65,
-                "quote_1us_after_latency_bound": 43, "episode_shorter_than_delay": 20, "trade_priced": 2000}
+                "quote_1us_after_latency_bound": 43, "episode_shorter_than_delay": 20, "trade_priced": 2000, "late_event_with_latency": 70}
 
 PROFILE = {
     "n_min": 2, "n_max": 12, "n_long": 40, "p_long": 0.1, "c_min": 1, "c_max": 3, "p_bar": 1.0, "extras_max": 10,
@@ -51,6 +51,10 @@ def generate(rng, i):
         # repeated episodes on one environment: timing must be the same in every one of them
         for _ in range(rng.randint(1, 2)):
             script = script + gen_epi.full_episode_script(rng, env, fold=fold, unique=True)
+    if rng.random() < 0.12:
+        # fault: the transmitter is handed one more event after the environment was built (before some reset)
+        resets = [j for j, op in enumerate(script) if op["op"] == "reset"]
+        script.insert(rng.choice(resets), {"op": "late_add", "env": 0})
     return {"kind": "epi", "envs": [env], "clock0": "1999-01-01T00:00:00", "script": script, "prng": rng.randrange(2 ** 31)}
 
 
@@ -131,6 +135,8 @@ def execute(scenario):
         n_exec = sum(1 for st in ep["steps"] if st.get("exc") is None and not st["done_before"])
         if delay >= 2:
             probe("delay_ge_2")
+        if sim.faults.get("events_added_after_construction") and env_spec["latency_us"]:
+            probe("late_event_with_latency")
         if env_spec["space"]["type"] == "discrete" and delay > 0 and n_exec > 0:
             probe("discrete_with_delay")
         if 0 < n_exec <= delay:
